@@ -344,6 +344,11 @@ def build_array(blk, name, spec, salt):
     return da, data
 
 
+def _fits(arr, dt):
+    info = np.iinfo(np.dtype(dt))
+    return bool(np.all(arr == np.round(arr)) and np.all(arr >= info.min) and np.all(arr <= info.max))
+
+
 def build(case, blk):
     nixio = _nix()
     ref, refdata = build_array(blk, "ref", case["ref"], 0)
@@ -360,6 +365,13 @@ def build(case, blk):
             parr = parr[:, 0]
             earr = None if earr is None else earr[:, 0]
         pcal = case.get("pcal")
+        pdt = case.get("pdt")
+        if pdt and not pcal and _fits(parr, pdt) and (earr is None or _fits(earr, pdt)):
+            # positions / extents kept in a narrow integer type (sample or channel numbers): the region is defined by
+            # the numbers, whatever the width they are stored in (start + extent may exceed that width)
+            parr = parr.astype(pdt)
+            earr = None if earr is None else earr.astype(pdt)
+            case["_pdt_used"] = True
         if pcal:
             # positions / extents kept in calibrated arrays (e.g. clock counts with a conversion): the region is
             # defined by what the arrays READ (raw * 2, exact in binary64), not by the stored raw numbers
@@ -675,6 +687,12 @@ def run_case(case, ctx, bench):
             classes.append("mtag:calibrated-positions/extents:" + case["pcal"])
         if case.get("pos1d") and len(rshape) > 1:
             classes.append("mtag:positions-1d-on-rank>1")
+        if case.pop("_pdt_used", False):
+            classes.append("mtag:positions-stored-as:" + case["pdt"])
+            if case.get("ext") is not None and not oor:
+                info = np.iinfo(np.dtype(case["pdt"]))
+                if any(p_ + e_ > info.max for p_, e_ in zip(case["pos"][row], case["ext"][row])):
+                    classes.append("mtag:position+extent-exceeds-the-stored-integer-type")
 
     # ---- feature data
     fspec = case.get("feat")
@@ -1097,6 +1115,7 @@ def recipes(draw):
         else:
             case["pos1d"] = False
         case["pcal"] = draw(st.sampled_from([None, None, None, None, "pos", "ext", "both"]))
+        case["pdt"] = draw(st.sampled_from([None, "uint8", "int8", "int16", "uint16", "uint8", "int8"]))
     case["requery"] = draw(st.booleans())
     if draw(st.sampled_from([True, True, False])):
         case["sel"] = {"rdecoy": draw(st.sampled_from(["none", "before", "before", "after"])),
@@ -1105,6 +1124,37 @@ def recipes(draw):
                        "fby": draw(st.sampled_from(["index", "neg", "fid", "dname", "did"])),
                        "dep": draw(st.booleans())}
     return case
+
+
+@st.composite
+def narrow_int_recipes(draw):
+    """multi-tags whose positions / extents are kept in a narrow integer type, with position + extent beyond that
+    type's range although each number fits (sample numbers as uint16, channel numbers as int8 ...)"""
+    dt = draw(st.sampled_from(["int8", "uint8", "int16", "uint16"]))
+    top = int(np.iinfo(np.dtype(dt)).max)
+    n = draw(st.integers(3, 6))
+    step = draw(st.sampled_from([1, 2, 5, 10] if top < 1000 else [1, 10, 100, 1000]))
+    first = top - step * draw(st.integers(1, n - 2)) - draw(st.integers(0, step - 1))
+    coords = [first + i * step for i in range(n)]
+    if draw(st.booleans()):
+        axis = {"t": "range", "ticks": [float(c) for c in coords], "unit": draw(st.sampled_from([None, "ms"]))}
+    else:
+        axis = {"t": "sampled", "dt": float(step), "off": float(first), "unit": draw(st.sampled_from([None, "ms"]))}
+    rows = draw(st.integers(1, 3))
+    pos, ext = [], []
+    for _ in range(rows):
+        i0 = draw(st.integers(0, n - 2))
+        p_ = coords[i0] if coords[i0] <= top else coords[0]
+        p_ = min(p_, top)
+        e_ = min(top, draw(st.integers(1, (n - 1) * step)))
+        pos.append([float(p_)])
+        ext.append([float(e_)])
+    units = None
+    if axis["unit"] is not None and draw(st.booleans()):
+        units = [axis["unit"]]
+    return {"kind": "mtag", "ref": {"shape": [n], "axes": [axis]}, "pos": pos, "ext": ext, "units": units,
+            "rule": draw(st.sampled_from(["excl", "incl"])), "feat": None, "posidx": draw(st.integers(0, rows - 1)),
+            "pos1d": draw(st.booleans()), "pcal": None, "pdt": dt, "requery": False}
 
 
 # ====================================================================== runner interface
@@ -1124,7 +1174,7 @@ def run_shard(spec, ctx):
         run_case(case, ctx, bench)
 
     try:
-        gen.generate(recipes(), spec["n"], spec["seed"], one)
+        gen.generate(gen.weighted([recipes()] * 15 + [narrow_int_recipes()]), spec["n"], spec["seed"], one)
     finally:
         bench.close()
 
